@@ -71,6 +71,7 @@ pub fn cases(tier: Tier) -> (Vec<Case>, serde_json::Value) {
         extra.retain(|p| p.closures.iter().any(|c| c.len() == 2));
         progs.extend(extra);
     }
+    progs.extend(extra_programs());
     let n_shape = progs.len();
     for (i, p) in progs.into_iter().enumerate() {
         match tier {
